@@ -7,6 +7,7 @@ N in {50,100,101,257} x 16 grid-origin offsets x 3 times x u_piston {0, 2e4} x g
 (x, t) lattice.  Oracle: signs, ordering and monotonicity of the returned fields (no expected values).
 """
 import math
+import os
 
 import numpy as np
 
@@ -41,15 +42,16 @@ ASSUMPTIONS = [
     "values outside the parameter/time/point alphabets are not explored",
     "documented vacua: EHEP regions ahead of the HE / behind the piston and the hole of a vacuum-type Sedov solution (rho = p = 0 exactly)",
     "a fan is a maximal run of consecutive sample points, between located discontinuities, along which the pressure varies (Riemann) or a maximal run of one returned region label (EHEP) or the whole profile (Mader)",
+    "JWL problems are exempt from e >= 0: the zero of a JWL energy is a convention (the Lee problem's right star state has e = -1e-3 by expansion from e = 0.033)",
     "radiative shocks: the upstream end is the end of the profile whose density equals the parameter rho0 (documented reference state)",
     "Su-Olson: NaN temperatures are judged only where monotonicity implies a value above the noise floor",
 ]
 
-FAMILIES = {   # name -> (K quick, K thorough, one task per time)
-    "Noh": (1, 2, False), "Sedov": (1, 2, True), "Guderley": (1, 2, True),
-    "IGEOS": (1, 2, False), "IGEOS_table": (2, 2, False), "GenEOS": (1, 2, True), "GenEOS_table": (2, 2, True),
-    "EHEP": (1, 2, False), "SDRZ": (1, 2, False), "EPpiston": (1, 2, False),
+FAMILIES = {   # name -> (K quick, K thorough, one task per time); heavy families first (load balance)
+    "Guderley": (1, 2, True), "GenEOS": (1, 2, True), "GenEOS_table": (2, 2, True), "Sedov": (1, 2, True),
     "ED_Solver": (1, 2, False), "nED_Solver": (1, 1, False), "ie_Solver": (1, 2, False),
+    "IGEOS": (1, 2, False), "IGEOS_table": (2, 2, False), "Noh": (1, 2, False),
+    "EHEP": (1, 2, False), "SDRZ": (1, 2, False), "EPpiston": (1, 2, False),
 }
 SUOLSON_ALPHABET = {"trad_bc_ev": [1.0e3, 500.0], "opac": [1.0, 2.5], "alpha": [3.02636565993931701e-14, 6.05273131987863402e-14]}
 MADER_N = [50, 100, 101, 257]
@@ -66,7 +68,10 @@ VACUUM_OK = {"EHEP", "Sedov"}
 
 def tasks(tier, seed):
     out = []
+    only = [x for x in os.environ.get("XPMC_ONLY_FAMILIES", "").split(",") if x]     # development only (mutant runs); never set by registered commands
     for name, (kq, kt, split) in FAMILIES.items():
+        if only and name not in only:
+            continue
         k = kq if tier == "quick" else kt
         alpha = X.alphabet(name)
         for dev in lattice.enumerate_checked(alpha, k):
@@ -76,11 +81,11 @@ def tasks(tier, seed):
                     out.append({"family": name, "dev": dev, "t": t})
             else:
                 out.append({"family": name, "dev": dev})
-    for n in MADER_N:
+    for n in (MADER_N if not only or "Mader" in only else []):
         for up in MADER_UP:
             for g in MADER_GAMMA:
                 out.append({"family": "Mader", "N": n, "u_piston": up, "gamma": g})
-    for dev in lattice.enumerate_checked(SUOLSON_ALPHABET, 1 if tier == "quick" else 3):
+    for dev in (lattice.enumerate_checked(SUOLSON_ALPHABET, 1 if tier == "quick" else 3) if not only or "SuOlson" in only else []):
         out.append({"family": "SuOlson", "dev": dev})
     return out
 
@@ -182,10 +187,12 @@ def hydro_profile(A, t, rec, C, dg, cnt):
     name = A.fam["name"]
     noise = NOISE_C.get(name, NOISE)
     a, b = A.window(t)
+    if name == "EHEP":          # the products escape into the void with the front at x = D t: look at the whole of it
+        b = min(9.9, max(b, 1.15 * A.cfg["D"] * t))
     pad, xtol = 0.0, A.xtol
     if hasattr(A, "cell"):
         c = A.cell(t)
-        pad, xtol = 2.0 * c, 3.0 * c / max(abs(a), abs(b))
+        pad, xtol = 2.0 * c, 1e-13      # class C: brackets stop at 3 cells (xabs = 1.5 pad) and are widened by 2 cells
     Fj = lambda x: A.Fat(x, t)
     jumps = J.locate(Fj, a, b, n=A.scan, geometric=A.geometric, arity=A.arity, xtol=xtol, max_jumps=A.max_jumps, cnt=cnt, pad=pad)
     C["located_discontinuities"] = C.get("located_discontinuities", 0) + len(jumps)
@@ -208,9 +215,38 @@ def hydro_profile(A, t, rec, C, dg, cnt):
         dg.add(np.asarray(r_))
     names = sol.dtype.names
     cfield = np.asarray(sol["sound_speed"]) if "sound_speed" in names else None
-    nv = positivity(rec, name, t, pts, M[J.RHO], M[J.P], e=M[J.E] if np.isfinite(M[J.E]).any() else None, c=cfield)
+    efield = M[J.E] if np.isfinite(M[J.E]).any() else None
+    if getattr(A, "rc", {}).get("problem") == "JWL":
+        efield = None      # the zero of a JWL energy is a convention (e0): e = (p - f(rho)) / ((gamma-1) rho) < 0 is legitimate
+    nv = positivity(rec, name, t, pts, M[J.RHO], M[J.P], e=efield, c=cfield)
     C["vacuum_points"] = C.get("vacuum_points", 0) + nv
     C["points"] = C.get("points", 0) + len(pts)
+    # ---- edges of a vacuum (rho > 0 next to rho == 0 without a located jump: a continuous front): straddle them too
+    if name in VACUUM_OK:
+        pos = M[J.RHO] > 0
+        for i in np.where(pos[1:] != pos[:-1])[0]:
+            lo_, hi_ = float(pts[i]), float(pts[i + 1])
+            if any(j["lo"] <= hi_ and j["hi"] >= lo_ for j in jumps):
+                continue
+            inl = bool(pos[i])
+            for _ in range(200):
+                mid = 0.5 * (lo_ + hi_)
+                if mid <= lo_ or mid >= hi_ or hi_ - lo_ <= 1e-13 * max(abs(lo_), abs(hi_)):
+                    break
+                if bool(A.Fat(np.array([mid]), t)[J.RHO, 0] > 0) == inl:
+                    lo_ = mid
+                else:
+                    hi_ = mid
+            extra = []
+            for k in range(10):
+                d = L * 10.0 ** (-13.0 + 1.2 * k)
+                extra += [lo_ - d, hi_ + d]
+            extra = np.array(sorted(x for x in extra if a <= x <= b))
+            sol_e, Me = A.profile(extra, t)
+            ce = np.asarray(sol_e["sound_speed"]) if "sound_speed" in sol_e.dtype.names else None
+            positivity(rec, name, t, extra, Me[J.RHO], Me[J.P], e=Me[J.E] if np.isfinite(Me[J.E]).any() else None, c=ce, region="vacuum-edge")
+            C["vacuum_edges"] = C.get("vacuum_edges", 0) + 1
+            C["points"] = C.get("points", 0) + len(extra)
     # ---- compressive shocks
     for k, j in enumerate(jumps):
         sp = J.speed_fd(A.Fat, j, t, A.rel_steps[-1:], A.window, arity=A.arity, cnt=cnt, order=2, xtol=xtol, origin=A.origin, pad=pad)
@@ -221,7 +257,7 @@ def hydro_profile(A, t, rec, C, dg, cnt):
         if not np.isfinite(np.concatenate([j["L"][:3], j["R"][:3]])).all():
             C["nonfinite_state_cases"] = C.get("nonfinite_state_cases", 0) + 1
             continue
-        ctol = {"GenEOS": 3e-3, "GenEOS_table": 3e-3}.get(name, 1e-5)
+        ctol = {"GenEOS": 3e-2, "GenEOS_table": 3e-2}.get(name, 1e-5)
         kind, _ = J.jump_residuals(j["L"], j["R"], s, ctol=ctol, energy=False, Vfloor=1e-6 * j["V"])
         dg.add(float(j["x"]), float(s))
         if kind == "contact":
@@ -233,6 +269,8 @@ def hydro_profile(A, t, rec, C, dg, cnt):
             continue
         drho, dp = cp
         w = {"t": t, "wave": k}
+        if hasattr(A, "rc"):
+            w.update({"pattern": str(getattr(A.s, "soln_type", "")).split("-")[-1], "du": float(A.rc["ul"] - A.rc["ur"])})
         if drho < -noise:
             rec.add("shock:density-rises", w, -drho, noise, x=j["x"], s=s, left=[float(v) for v in j["L"]], right=[float(v) for v in j["R"]])
         if dp < -noise:
@@ -401,20 +439,29 @@ def suolson_task(task, rec, C, dg):
 # ----------------------------------------------------------------------------------------------
 
 def radshock_task(name, cfg, rec, C, dg):
+    """Positivity on 4000 uniform points across the profile's extent (public attribute x) plus 400 points zooming on the
+    steepest density step; the end states and the embedded hydrodynamic shock (if the zoom shows a jump) are compressive
+    in the direction of the flow (from the end whose density is the reference density rho0 to the other end)."""
     f = hydro.by_name(name)
     s = hydro.make(f, cfg)
     evals = 0
     nt = []
     for t in f["times"](cfg)[:2]:
         xi = np.asarray(s.x, float)
-        shift = s.sound * s.M0 * t
-        xs = -np.flip(xi) + shift
-        # every internal abscissa and every mid-point (exercises nodes and interpolation), plus both far ends
-        pts = np.unique(np.concatenate([xs, 0.5 * (xs[1:] + xs[:-1])]))
+        shift = s.sound * s.M0 * t                 # the solver's own displacement (its correctness is C12's business)
+        lo, hi = -float(np.nanmax(xi)) + shift, -float(np.nanmin(xi)) + shift
+        L = hi - lo
+        pts = lo + (np.arange(4000) + 0.5) * L / 4000.0
+        sol = call(s, pts, t)
+        evals += 1
+        rho0 = np.asarray(sol["density"], float)
+        rel = np.abs(np.diff(rho0)) / (rho0[1:] + rho0[:-1])
+        i = int(np.nanargmax(rel)) if np.isfinite(rel).any() else 0
+        zoom = np.linspace(pts[i], pts[i + 1], 402)[1:-1]
+        pts = np.sort(np.concatenate([pts, zoom]))
         sol = call(s, pts, t)
         evals += 1
         names = sol.dtype.names
-        Tn = [n for n in names if n.startswith("temperature")]
         rho, p = np.asarray(sol["density"], float), np.asarray(sol["pressure"], float)
         e, c = np.asarray(sol["specific_internal_energy"], float), np.asarray(sol["sound_speed"], float)
         extra = {n: np.asarray(sol[n], float) for n in names if n in ("rade", "temperature_rad", "temperature_mat", "temperature")}
@@ -430,21 +477,17 @@ def radshock_task(name, cfg, rec, C, dg):
             rec.add("shock:density-rises", {"t": t, "wave": "end-states"}, float((r_up - r_dn) / (r_up + r_dn)), 0.0)
         if not (p_dn > p_up):
             rec.add("shock:pressure-rises", {"t": t, "wave": "end-states"}, float((p_up - p_dn) / (p_up + p_dn)), 0.0)
-        # embedded hydrodynamic shock: the largest density step between neighbouring internal abscissae, if it is a jump
+        # embedded hydrodynamic shock: a density step > 1 % between neighbouring zoom points (spacing L / 1.6e6)
         d = np.diff(rho)
         rel = np.abs(d) / (rho[1:] + rho[:-1])
-        i = int(np.argmax(rel))
-        if rel[i] > 1e-2 and (pts[i + 1] - pts[i]) < 1e-6 * (pts[-1] - pts[0]):
+        k = int(np.nanargmax(rel)) if np.isfinite(rel).any() else 0
+        if rel[k] > 1e-2 and (pts[k + 1] - pts[k]) < 1e-6 * L:
             C["embedded_shocks"] = C.get("embedded_shocks", 0) + 1
-            a_, b_ = ((i, i + 1) if up_right else (i + 1, i))          # a_ downstream, b_ upstream
+            a_, b_ = ((k, k + 1) if up_right else (k + 1, k))          # a_ downstream, b_ upstream
             if not (rho[a_] >= rho[b_]):
-                rec.add("shock:density-rises", {"t": t, "wave": "embedded"}, float(rel[i]), 0.0, x=float(pts[i]))
+                rec.add("shock:density-rises", {"t": t, "wave": "embedded"}, float(rel[k]), 0.0, x=float(pts[k]))
             if not (p[a_] >= p[b_]):
-                rec.add("shock:pressure-rises", {"t": t, "wave": "embedded"}, float(abs(p[a_] - p[b_]) / (p[a_] + p[b_])), 0.0, x=float(pts[i]))
-        # density is monotone through a radiative shock (precursor, embedded shock, relaxation region all compress)
-        r, k = monotone(rho, 1e-6)
-        if r > 1e-5:
-            rec.add("shock:density-monotone", {"t": t}, r, 1e-5, x=float(pts[k]))
+                rec.add("shock:pressure-rises", {"t": t, "wave": "embedded"}, float(abs(p[a_] - p[b_]) / (p[a_] + p[b_])), 0.0, x=float(pts[k]))
         nt.append("%s|%s|%g" % (name, sorted(cfg.items()), t))
     return evals, nt
 
